@@ -1,6 +1,7 @@
 """Rules of other properties that are also necessary conditions of a property are evaluated under that property too
 (filed as `<pid>+/<rule>`), so that a change is reported by the check of every property it breaks.
-Rules that currently carry a known finding are never imported (their finding is listed under their own property)."""
+Rules that currently carry a known finding are imported only in the starred form `Rxx.y*`: violations whose key is a recorded known
+finding are dropped (they are listed under their own property), anything else the rule reports is shown."""
 import importlib
 
 from c03 import _Filter
@@ -19,7 +20,7 @@ RELATED = {
     "C07": [("c11", ["R11.2"]), ("c01", ["R01.2", "R01.5"]), ("c02", ["R02.3"]), ("c12", ["R12.2", "R12.7"]), ("c03", ["R03.4"]),
             ("lints", ["L.try-lock", "L.partial-read", "L.partial-write"])],
     "C08": [("c04", ["R04.1", "R04.3"]), ("c03", ["R03.4"]), ("c14", ["R14.4"]), ("lints", ["L.try-send"])],
-    "C09": [("c12", ["R12.1", "R12.3", "R12.6", "R12.7", "R12.8", "R12.9"]), ("c10", ["R10.6"]), ("lints", ["L.partial-read"])],
+    "C09": [("c12", ["R12.1", "R12.3", "R12.6", "R12.7", "R12.8", "R12.9"]), ("c10", ["R10.6"]), ("c05", ["R05.1*"]), ("lints", ["L.partial-read"])],
     "C10": [("c09", ["R09.1", "R09.5"]), ("c12", ["R12.7", "R12.8", "R12.9"]), ("c05", ["R05.3"]), ("lints", ["L.partial-read"])],
     "C11": [("c12", ["R12.4"]), ("c08", ["R08.4", "R08.6"]), ("c02", ["R02.4"]), ("lints", ["L.partial-write", "L.file-create-truncate"])],
     "C12": [("lints", ["L.partial-read"])],
@@ -36,4 +37,4 @@ def run(pid, ctx, rep):
         if modname == "lints":
             mod.run(ctx, _Filter(rep, keep=tuple(rules), rename=pid + "+/"), rules)
         else:
-            mod.run(ctx, _Filter(rep, keep=tuple(rules), rename=pid + "+/"))
+            mod.run(ctx, _Filter(rep, keep=tuple(r.rstrip("*") for r in rules), rename=pid + "+/", skip_known=any(r.endswith("*") for r in rules)))
